@@ -205,7 +205,9 @@ def _run_task(arg):
     except Exception as e:
         from .sx import OutsideSubset
         from .cx import Unsupported
-        kind = 'outside-subset' if isinstance(e, (OutsideSubset, intake.IntakeError, Unsupported)) else 'crash'
+        # a missing local name / changed shape of the code under contract (KeyError, IndexError in the contract module) means the
+        # contract no longer lines up with the source: undecided, not a checker crash
+        kind = 'outside-subset' if isinstance(e, (OutsideSubset, intake.IntakeError, Unsupported, LookupError)) else 'crash'
         return dict(results=[], functions={}, trusted=[], task=f'{modname}.{fname}{kwargs or ""}',
                     error=f'{type(e).__name__}: {e}', error_kind=kind, tb=traceback.format_exc()[-1500:],
                     wall=round(time.time() - t0, 2))
